@@ -333,9 +333,25 @@ Definition mon_never_blocks (c : scase) : bool :=
          | _, _ => true
          end) track0 (sc_steps c).
 
+(* monitor 6 - the state table is keyed by seed id, whatever object carries the id: with no other
+   call in progress a finish returns nil exactly for a seed the table showed (else "not found"), a
+   feedback is "not present" exactly for a seed the table did not show *)
+Definition mon_by_id (c : scase) : bool :=
+  all_steps (fun t x t' =>
+    let '(o, b) := x in
+    let '(_, tbl, _, _) := t_prev t in
+    if t_stopped t || t_panicked t' || negb (o_alive b) then true
+    else match t_pending t, o_pend b, o, o_res b with
+         | None, None, SCall (OFin i), Some r =>
+             if memb Nat.eqb i tbl then res_eqb r ROk else res_eqb r RNotFound
+         | None, None, SCall (OFb i), Some r =>
+             Bool.eqb (res_eqb r RNotPresent) (negb (memb Nat.eqb i tbl))
+         | _, _, _, _ => true
+         end) track0 (sc_steps c).
+
 Definition diffs (l : list scase) := bad_idx sdiff_case l.
 Definition mons (l : list scase) :=
-  mon_idx [mon_accounting; mon_ledger; mon_reject_pure; mon_closed; mon_delivery; mon_never_blocks] l.
+  mon_idx [mon_accounting; mon_ledger; mon_reject_pure; mon_closed; mon_delivery; mon_never_blocks; mon_by_id] l.
 
 (* ------------------------------------------------------------------ concurrent histories *)
 
@@ -459,7 +475,15 @@ Definition cmon_rejections (c : ccase) : bool :=
     | _ => true
     end) cl
   && forallb (fun i => count (fun x => is_fin_ok x && (call_id x =? i)) cl <=? count (Nat.eqb i) acc)
-             (map call_id (filter is_fin_ok cl)).
+             (map call_id (filter is_fin_ok cl))
+  (* by id, whatever object carries it: a finish is issued for an accepted seed => one of them succeeds *)
+  && (cc_hung c
+      || forallb (fun x => match cl_op x with
+                           | CApi (OFin i) =>
+                               if memb Nat.eqb i acc
+                               then 1 <=? count (fun y => is_fin_ok y && (call_id y =? i)) cl
+                               else true
+                           | _ => true end) cl).
 
 (* monitor 5 - closed: no insert / feedback issued after Freeze() returned is accepted; after
    Stop() every call is "not initialized" *)
